@@ -15,6 +15,9 @@ All statements are about the executable model `Dino.Units` (tied to `dinosaur/sc
 * T18.2 `nondimensionalize` / `dimensionalize` are mutually inverse, independent of the unit a
   quantity is expressed in, and respect products, quotients, powers.  Scales must be non-zero
   (`ScaleOK`; the code does not validate this) and conversion factors of units non-zero.
+  The inverse / unit-independence statements are proved for multiplicative units (`UnitV`) and for
+  affine (offset) units (`AffUnit`: kelvin, degC, degF), of which the multiplicative ones are the
+  special case offset = 0; negative witness `dimensionalizeLinearised_not_inverse`.
 * T18.3 whole-second durations survive `dimensionalize_timedelta64 ∘ nondimensionalize_timedelta64`
   (scalar and array path) under the standard rounding model of binary64 for `|s| ≤ 10⁹`; the
   truncation used before commit 35952ac loses 27 s (negative witness on the real doubles).
@@ -240,6 +243,149 @@ theorem compound_spec (a : List (UnitV K × ℤ)) :
     · simp [compound, UnitV.mul, UnitV.pow, zpow_eq, ih.1]
     · simp [compound, UnitV.mul, UnitV.pow, dget_dadd, dget_dsmul, ih.2 i]
 
+/-! ### affine (offset) units: degree Celsius, degree Fahrenheit
+
+`Scale.dimensionalize(value, units.degC)` is an *affine* function of `value`.  The side conditions are
+explicit: `ScaleOK sc` (every base scale is non-zero — the code does not check this), the conversion
+factor of the unit is non-zero, and the scale covers the dimension of the unit.  Compound units that
+contain an offset unit are outside the domain (the code raises on them). -/
+
+/-- multiplicative units are the special case offset = 0 of the affine model -/
+theorem nondimAff_ofUnit (sc : List (Option K)) (u : UnitV K) (m : K) :
+    nondimAff sc (AffUnit.ofUnit u) m = nondim sc u m := by
+  simp [nondimAff, nondim, AffUnit.ofUnit, AffUnit.toBase]
+
+/-- multiplicative units are the special case offset = 0 of the affine model -/
+theorem dimensionalizeAff_ofUnit (sc : List (Option K)) (u : UnitV K) (v : K) :
+    dimensionalizeAff sc (AffUnit.ofUnit u) v = dimensionalize sc u v := by
+  simp [dimensionalizeAff, dimensionalize, AffUnit.ofUnit, AffUnit.fromBase]
+
+/-- `Quantity(m, u).to(u) = m` -/
+theorem convertAff_self (u : AffUnit K) (hc : u.conv ≠ 0) (m : K) : convertAff u u m = m :=
+  u.fromBase_toBase hc m
+
+/-- `q.to(u').to(u'') = q.to(u'')` -/
+theorem convertAff_trans (u u' u'' : AffUnit K) (hc' : u'.conv ≠ 0) (m : K) :
+    convertAff u' u'' (convertAff u u' m) = convertAff u u'' m := by
+  simp only [convertAff, u'.toBase_fromBase hc']
+
+/-- a conversion keeps the physical quantity (its value in base units) -/
+theorem toBase_convertAff (u u' : AffUnit K) (hc' : u'.conv ≠ 0) (m : K) :
+    u'.toBase (convertAff u u' m) = u.toBase m :=
+  u'.toBase_fromBase hc' _
+
+/-- **(a)** `dimensionalize(nondimensionalize(Quantity(m, u)), u') = Quantity(m, u).to(u')` for affine
+units `u`, `u'` of the same dimension, and the result is the same physical quantity -/
+theorem dimensionalizeAff_nondimAff {sc : List (Option K)} (hsc : ScaleOK sc) (u u' : AffUnit K)
+    (hc' : u'.conv ≠ 0) (hd : DimEq u.dim u'.dim) (hcov : covers sc u.dim = true) (m : K) :
+    ∃ v, nondimAff sc u m = some v ∧ dimensionalizeAff sc u' v = some (convertAff u u' m) ∧
+      u'.toBase (convertAff u u' m) = u.toBase m := by
+  obtain ⟨f, hf⟩ := factor_isSome_of_covers hcov
+  have hf0 := factor_ne_zero hsc hf
+  have hf' : factor sc u'.dim = some f := by rw [← factor_congr hd]; exact hf
+  refine ⟨u.toBase m / f, by simp [nondimAff, hf], ?_, toBase_convertAff u u' hc' m⟩
+  simp only [dimensionalizeAff, hf', Option.map_some, convertAff, div_mul_cancel₀ _ hf0]
+
+/-- **(a)** with `u' = u`: `dimensionalize(nondimensionalize(Quantity(m, u)), u) = Quantity(m, u)` -/
+theorem dimensionalizeAff_nondimAff_same {sc : List (Option K)} (hsc : ScaleOK sc) (u : AffUnit K)
+    (hc : u.conv ≠ 0) (hcov : covers sc u.dim = true) (m : K) :
+    ∃ v, nondimAff sc u m = some v ∧ dimensionalizeAff sc u v = some m := by
+  obtain ⟨v, h1, h2, _⟩ := dimensionalizeAff_nondimAff hsc u u hc (fun _ => rfl) hcov m
+  exact ⟨v, h1, by rw [h2, convertAff_self u hc]⟩
+
+/-- **(b)** `nondimensionalize(dimensionalize(v, u)) = v` for an affine unit -/
+theorem nondimAff_dimensionalizeAff {sc : List (Option K)} (hsc : ScaleOK sc) (u : AffUnit K)
+    (hc : u.conv ≠ 0) (hcov : covers sc u.dim = true) (v : K) :
+    ∃ q, dimensionalizeAff sc u v = some q ∧ nondimAff sc u q = some v := by
+  obtain ⟨f, hf⟩ := factor_isSome_of_covers hcov
+  have hf0 := factor_ne_zero hsc hf
+  refine ⟨u.fromBase (v * f), by simp [dimensionalizeAff, hf], ?_⟩
+  simp only [nondimAff, hf, Option.map_some, u.toBase_fromBase hc, mul_div_cancel_right₀ _ hf0]
+
+/-- **(c)** the same physical quantity (same value in base units) expressed in two affine units of the
+same dimension (K, degC, degF) has the same non-dimensional value -/
+theorem nondimAff_unit_independent (sc : List (Option K)) (u u' : AffUnit K) (m m' : K)
+    (hd : DimEq u.dim u'.dim) (h : u.toBase m = u'.toBase m') :
+    nondimAff sc u m = nondimAff sc u' m' := by
+  simp only [nondimAff, factor_congr hd, h]
+
+/-- **(c)** `nondimensionalize(q.to(u')) = nondimensionalize(q)` -/
+theorem nondimAff_convertAff (sc : List (Option K)) (u u' : AffUnit K) (hc' : u'.conv ≠ 0)
+    (hd : DimEq u.dim u'.dim) (m : K) :
+    nondimAff sc u' (convertAff u u' m) = nondimAff sc u m :=
+  nondimAff_unit_independent sc u' u _ _ (fun i => (hd i).symm) (toBase_convertAff u u' hc' m)
+
+/-- converse of (c): with non-zero scales the non-dimensional value determines the physical quantity -/
+theorem toBase_eq_of_nondimAff_eq {sc : List (Option K)} (hsc : ScaleOK sc) (u u' : AffUnit K)
+    (m m' v : K) (hd : DimEq u.dim u'.dim) (h : nondimAff sc u m = some v)
+    (h' : nondimAff sc u' m' = some v) : u.toBase m = u'.toBase m' := by
+  rw [nondimAff_eq_some_iff] at h h'
+  obtain ⟨f, hf, rfl⟩ := h
+  obtain ⟨f', hf', h'⟩ := h'
+  rw [← factor_congr hd, hf] at hf'
+  cases hf'
+  have hf0 := factor_ne_zero hsc hf
+  field_simp at h'
+  exact h'.symm
+
+/-- **(c)** `dimensionalize(v, u).to(u') = dimensionalize(v, u')`: the re-dimensionalised quantity does
+not depend on the unit asked for -/
+theorem dimensionalizeAff_unit_independent (sc : List (Option K)) (u u' : AffUnit K)
+    (hc : u.conv ≠ 0) (hc' : u'.conv ≠ 0) (hd : DimEq u.dim u'.dim) (v q : K)
+    (h : dimensionalizeAff sc u v = some q) :
+    dimensionalizeAff sc u' v = some (convertAff u u' q) ∧
+      u'.toBase (convertAff u u' q) = u.toBase q := by
+  rw [dimensionalizeAff_eq_some_iff] at h
+  obtain ⟨f, hf, rfl⟩ := h
+  refine ⟨?_, toBase_convertAff u u' hc' _⟩
+  rw [dimensionalizeAff_eq_some_iff]
+  exact ⟨f, by rw [← factor_congr hd]; exact hf, by simp only [convertAff, u.toBase_fromBase hc]⟩
+
+/-- `dimensionalize(·, u)` is affine: slope `factor / conv`, intercept `- off / conv` -/
+theorem dimensionalizeAff_affine (sc : List (Option K)) (u : AffUnit K) (f v : K)
+    (hf : factor sc u.dim = some f) :
+    dimensionalizeAff sc u v = some (v * (f / u.conv) - u.off / u.conv) := by
+  simp only [dimensionalizeAff, hf, Option.map_some, AffUnit.fromBase, Option.some.injEq]
+  ring
+
+/-! #### the linearised variant (`value * factor.to(unit).magnitude`) is not the inverse -/
+
+/-- on a unit without offset the linearised variant is `dimensionalize` … -/
+theorem dimensionalizeLinearised_ofUnit (sc : List (Option K)) (u : UnitV K) (v : K) :
+    dimensionalizeLinearised sc (AffUnit.ofUnit u) v = dimensionalize sc u v := by
+  simp [dimensionalizeLinearised, dimensionalize, AffUnit.ofUnit, AffUnit.fromBase, mul_div_assoc]
+
+/-- … and it agrees with the affine conversion exactly when the unit has no offset or `v = 1` -/
+theorem dimensionalizeLinearised_eq_iff (sc : List (Option K)) (u : AffUnit K) (hc : u.conv ≠ 0)
+    (hcov : covers sc u.dim = true) (v : K) :
+    dimensionalizeLinearised sc u v = dimensionalizeAff sc u v ↔ u.off = 0 ∨ v = 1 := by
+  obtain ⟨f, hf⟩ := factor_isSome_of_covers hcov
+  simp only [dimensionalizeLinearised, dimensionalizeAff, hf, Option.map_some, Option.some.injEq,
+    AffUnit.fromBase]
+  rw [mul_div_assoc', div_left_inj' hc]
+  constructor
+  · intro h
+    have h2 : u.off * (v - 1) = 0 := by linear_combination -h
+    rcases mul_eq_zero.1 h2 with h0 | h1
+    · exact Or.inl h0
+    · exact Or.inr (sub_eq_zero.1 h1)
+  · rintro (h | h)
+    · rw [h]; ring
+    · rw [h]; ring
+
+/-- for a unit with an offset the linearised variant does not invert `nondimensionalize` (except on
+the one quantity whose non-dimensional value is 1) -/
+theorem dimensionalizeLinearised_ne {sc : List (Option K)} (hsc : ScaleOK sc) (u : AffUnit K)
+    (hc : u.conv ≠ 0) (hoff : u.off ≠ 0) (hcov : covers sc u.dim = true) (m v : K)
+    (hv : nondimAff sc u m = some v) (hv1 : v ≠ 1) : dimensionalizeLinearised sc u v ≠ some m := by
+  obtain ⟨v', h1, h2⟩ := dimensionalizeAff_nondimAff_same hsc u hc hcov m
+  rw [hv] at h1
+  cases h1
+  intro h
+  rw [← h2, dimensionalizeLinearised_eq_iff sc u hc hcov] at h
+  rcases h with h | h
+  · exact hoff h
+  · exact hv1 h
 
 /-! ### `Scale.__init__` -/
 
@@ -285,6 +431,77 @@ example : factor sc0 [0, 1] = none := by decide +kernel
 example : mkScale 3 [((2 : ℚ), [1, 0, 0]), (3 / 7, [0, 0, 1])] = some sc0 := by decide +kernel
 example : mkScale 3 [((2 : ℚ), [1, 0, 0]), (5, [1, 0, 0])] = none := by decide +kernel
 example : mkScale 3 [((2 : ℚ), [1, 0, -1])] = none := by decide +kernel
+
+/-! ### non-vacuity of the affine part: 25 °C = 298.15 K = 77 °F under a temperature scale of 32 K -/
+
+/-- dimension vector of a temperature (the harness orders the base dimensions alphabetically:
+current, length, luminosity, mass, printing_unit, substance, temperature, time) -/
+def tempDim : List ℤ := [0, 0, 0, 0, 0, 0, 1]
+/-- `Scale(3 length units, 2 mass units, 32 K)` -/
+def scT : List (Option ℚ) := [none, some 3, none, some 2, none, none, some 32]
+/-- kelvin as an affine unit (offset 0) -/
+def kelvinU : AffUnit ℚ := AffUnit.ofUnit ⟨1, tempDim⟩
+/-- pint: `degree_Celsius = kelvin; offset: 273.15` -/
+def degC : AffUnit ℚ := ⟨1, 5463 / 20, tempDim⟩
+/-- pint: `degree_Fahrenheit = 5 / 9 * kelvin; offset: 233.15 + 200 / 9` -/
+def degF : AffUnit ℚ := ⟨5 / 9, 45967 / 180, tempDim⟩
+
+theorem scaleOK_scT : ScaleOK scT := by
+  intro q hq
+  simp only [scT, List.mem_cons, Option.some.injEq, reduceCtorEq, List.not_mem_nil, or_false,
+    false_or] at hq
+  rcases hq with rfl | rfl | rfl <;> norm_num
+
+theorem covers_scT : covers scT tempDim = true := by decide +kernel
+
+example : degC.toBase 25 = 5963 / 20 ∧ degF.toBase 77 = 5963 / 20 ∧ kelvinU.toBase (5963 / 20) = 5963 / 20 := by
+  decide +kernel
+example : convertAff degC degF 25 = 77 ∧ convertAff degF degC 77 = 25 ∧ convertAff degC degF (-40) = -40 ∧
+    convertAff kelvinU degC 0 = -5463 / 20 := by decide +kernel
+example : nondimAff scT degC 25 = some (5963 / 640) ∧ nondimAff scT degF 77 = some (5963 / 640) ∧
+    nondimAff scT kelvinU (5963 / 20) = some (5963 / 640) := by decide +kernel
+example : dimensionalizeAff scT degC (5963 / 640) = some 25 ∧ dimensionalizeAff scT degF (5963 / 640) = some 77 ∧
+    dimensionalizeAff scT kelvinU (5963 / 640) = some (5963 / 20) := by decide +kernel
+/-- a scale that does not cover the temperature raises -/
+example : nondimAff [none, some (3 : ℚ)] degC 25 = none ∧ dimensionalizeAff [none, some (3 : ℚ)] degF 1 = none := by
+  decide +kernel
+
+/-- the theorems applied: (a) degC → nondim → degF is the conversion 25 °C → 77 °F -/
+example : ∃ v, nondimAff scT degC 25 = some v ∧ dimensionalizeAff scT degF v = some 77 := by
+  obtain ⟨v, h1, h2, _⟩ := dimensionalizeAff_nondimAff scaleOK_scT degC degF (by norm_num [degF])
+    (fun _ => rfl) covers_scT 25
+  exact ⟨v, h1, by rw [h2]; decide +kernel⟩
+/-- (a) with the same unit, on degF -/
+example : ∃ v, nondimAff scT degF 77 = some v ∧ dimensionalizeAff scT degF v = some 77 :=
+  dimensionalizeAff_nondimAff_same scaleOK_scT degF (by norm_num [degF]) covers_scT 77
+/-- (b) on degC -/
+example : ∃ q, dimensionalizeAff scT degC (5963 / 640) = some q ∧ nondimAff scT degC q = some (5963 / 640) :=
+  nondimAff_dimensionalizeAff scaleOK_scT degC (by norm_num [degC]) covers_scT _
+/-- (c) 25 °C and 77 °F are the same quantity -/
+example : nondimAff scT degC 25 = nondimAff scT degF 77 :=
+  nondimAff_unit_independent scT degC degF 25 77 (fun _ => rfl) (by decide +kernel)
+/-- (c) `dimensionalize(v, degC).to(degF) = dimensionalize(v, degF)` -/
+example : dimensionalizeAff scT degF (5963 / 640) = some (convertAff degC degF 25) :=
+  (dimensionalizeAff_unit_independent scT degC degF (by norm_num [degC]) (by norm_num [degF])
+    (fun _ => rfl) _ 25 (by decide +kernel)).1
+
+/-- **negative witness**: the variant `value * factor.to(unit).magnitude` (seeded change C18-1) is not
+the inverse of `nondimensionalize` on a unit with an offset: 25 °C non-dimensionalises to 298.15/32,
+the code's conversion returns 25 °C, the linearised variant returns 9.317… · (32 − 273.15) = −2246.8… °C;
+on kelvin (offset 0) the two agree. -/
+theorem dimensionalizeLinearised_not_inverse :
+    nondimAff scT degC 25 = some (5963 / 640) ∧
+    dimensionalizeAff scT degC (5963 / 640) = some 25 ∧
+    dimensionalizeLinearised scT degC (5963 / 640) = some (-28759549 / 12800) ∧
+    dimensionalizeLinearised scT degC (5963 / 640) ≠ some 25 ∧
+    dimensionalizeLinearised scT degF (5963 / 640) ≠ dimensionalizeAff scT degF (5963 / 640) ∧
+    dimensionalizeLinearised scT kelvinU (5963 / 640) = dimensionalizeAff scT kelvinU (5963 / 640) := by
+  decide +kernel
+
+/-- the general negative statement applied to the same witness -/
+example : dimensionalizeLinearised scT degC (5963 / 640) ≠ some 25 :=
+  dimensionalizeLinearised_ne scaleOK_scT degC (by norm_num [degC]) (by norm_num [degC]) covers_scT 25 _
+    (by decide +kernel) (by norm_num)
 
 /-! ## T18.3 whole-second durations -/
 
